@@ -23,3 +23,4 @@ PROP = {
     "assumptions": STD_ASSUME + ["objectives are deterministic, never NaN, and finite at one or both starting abscissae; +inf from overflowing exp/cosh is a legitimate value elsewhere "
                                  "(cosh bowls are started up to 709 widths from the minimum with steps up to 1e3 widths; the Morse well, flat to rounding beyond 37 widths, keeps steps <= 20 widths)"],
 }
+PROP["level_text"] += ' The arguments handed over by reference (start, steps, start simplex) must come back unchanged; cosh bowls start up to 709 widths away with steps up to 1e3 widths (function values +inf); exactly tied starting values on even multimodal objectives; starts that are already within 1e-6 of the step from the minimiser.'
